@@ -196,7 +196,7 @@ func TestVerifC20Route(t *testing.T) {
 		// where did the requested method arrive?
 		for _, c := range local.Calls(nil) {
 			if name := vRouteMethodName(c); name == scn.Method {
-				out.Write(map[string]interface{}{"ev": "call", "dest": "local", "tok": map[string]bool{"salted": false, "leak": false, "foreign": false}})
+				out.Write(map[string]interface{}{"ev": "call", "dest": "local", "tok": map[string]bool{"salted": false, "leak": false, "foreign": false, "uuid": false}})
 			} else {
 				out.Write(map[string]interface{}{"ev": "side", "dest": "local", "method": name})
 			}
@@ -214,6 +214,7 @@ func TestVerifC20Route(t *testing.T) {
 					"salted":  strings.Contains(rq, "v2/"+tokUUID+"/"+vRouteHMAC(secret, r.id)),
 					"leak":    strings.Contains(rq, secret),
 					"foreign": strings.Contains(rq, "v2/"+tokUUID+"/"+vRouteHMAC(secret, other)),
+					"uuid":    strings.Contains(rq, tokUUID), // the token was forwarded in some form
 				}
 				name := "(no route)"
 				if i < len(calls) {
